@@ -411,6 +411,19 @@ def run(ctx):
             ctx.ob("C02.S4.capture-safe-only-when-escaping", inst, g is not None and g[0] == "auto-escape-on",
                    "captured text is marked safe without an `auto_escape != None` test (guard: %s)" % (g[0] if g else None),
                    f.where(bb))
+            # S4b: "safe" means safe for HTML.  Text captured while another escaping format was active (JSON: `"<x>"`,
+            # a custom format) is not HTML-escaped, yet a capture marked safe is printed raw in an HTML region later
+            # (`{% autoescape 'json' %}{% set c %}{{ x }}{% endset %}{% endautoescape %}{{ c }}`).
+            html_only = False
+            for gf_ in flow.guard_facts(prog, f, bb):
+                if gf_[0] == "matches" and gf_[1] == AE and gf_[3] is True and set(gf_[2]) <= {"Html"}:
+                    html_only = True
+                if gf_[0] == "variant" and gf_[2] == AE and set(gf_[3]) <= {"Html"}:
+                    html_only = True
+            ctx.ob("C02.S4.capture-is-marked-safe-only-under-html-escaping", inst, html_only,
+                   "captured output is marked safe whenever *some* auto-escaping was active: text captured under JSON (or a "
+                   "custom) escaping contains raw `<`, `>`, quotes and is later printed unescaped where HTML escaping is in "
+                   "effect", f.where(bb))
             continue
         ctx.ob("C02.S3.safe-result-is-control-dependent-on-safety", inst, g is not None,
                "a safe string is produced without a dominating is_safe()/StringInput.safe/auto-escape test and the "
